@@ -10,9 +10,11 @@
 (*               (pleaf / psize: the analysis data LeafOps / MinCost(astsize)) *)
 (*   OpPolicy ("fifo"/"lifo"), OpEager (insert the whole pool up front, or     *)
 (*               only the sides of the asserted equations)                     *)
-EXTENDS EGraphOp, Json
+EXTENDS EMatchOp, Json
 
-CONSTANTS OpTermPool, OpEqPool, OpInsBase, OpMaxEqs, Expected, OpEager
+CONSTANTS OpTermPool, OpEqPool, OpInsBase, OpMaxEqs, Expected, OpEager,
+          OpPatterns,   \* pattern pool (terms with pattern-variable leaves) for MatchRefines; << >> = not asked for
+          OpN           \* size of the name pool of the SlottedCC run the Expected records come from
 
 VARIABLES st, hd, key      \* model state, handle per inserted pool term, asserted equations
 
@@ -57,6 +59,52 @@ Refines ==
              IN IF dbad = {} THEN TRUE ELSE Say("analysis data are not the least fixpoint of make/merge", SetToSeq(dbad))
      /\ IF WellFormed(s) THEN TRUE ELSE Say("structural invariants violated", << >>)
      /\ IF WellFormed(st) THEN TRUE ELSE Say("structural invariants violated before observing", << >>)
+
+(***************************************************************************)
+(* MatchRefines: the operational e-matcher EMatchOp computes exactly the     *)
+(* declarative match sets of EMatch.tla.  Exp.mtt[q] = the orbit-least ground *)
+(* matches of pattern q as tuples of universe TERMS (class representatives;   *)
+(* op "none" = variable not in the pattern), Exp.nored = the state is in the  *)
+(* scope of the comparison (no redundant slots, DESIGN 3.6).  An operational  *)
+(* match is grounded by every injective assignment of pool names to its names *)
+(* and to the pattern's bound slots that fixes the pattern's free slots; a    *)
+(* match that needs more names than the pool has makes the completeness       *)
+(* verdict of its pattern void, classes with OpN parameters get no verdict    *)
+(* (no spare name) - the same rules as the conformance check of the real      *)
+(* ematch_all (cc_replay: check_match_sets).                                   *)
+(***************************************************************************)
+PVs == <<"?a", "?b", "?c">>
+MPool == 1..OpN
+MatchRefinesAt(s, q) ==
+  LET p    == OpPatterns[q]
+      pf   == FV(p)
+      pb   == Names(p) \ pf
+      mt   == Range(Exp.mtt[q])
+      ets  == UNION {{t[k] : k \in {j \in 1..3 : t[j].op # "none"}} : t \in mt}
+      ho   == TLCEval([tt \in ets |-> AddTerm(s, tt)])
+      hu   == TLCEval([tt \in ets |-> FindA(s, ho[tt].a)])
+      repr == \A tt \in ets : ho[tt].st.cls = s.cls
+      opm  == TLCEval(EmatchAll(s, p))
+      nms(sg) == pf \cup pb \cup UNION {Rng(sg[v].m) : v \in DOMAIN sg}
+      grd(sg) == Cardinality(nms(sg)) <= OpN
+      G(sg)   == {f \in [nms(sg) -> MPool] : (\A x \in pf : f[x] = x) /\ (\A x, y \in nms(sg) : f[x] = f[y] => x = y)}
+      big(sg) == \E v \in DOMAIN sg : Cardinality(Rng(FindA(s, sg[v]).m)) = OpN
+      bigT(t) == \E k \in 1..3 : t[k].op # "none" /\ FV(t[k]) = MPool
+      vi(v)   == CHOOSE k \in 1..3 : PVs[k] = v
+      ids(sg, t) == \A v \in DOMAIN sg : t[vi(v)].op # "none" /\ hu[t[vi(v)]].id = FindA(s, sg[v]).id
+      R(sg, f, t) == \A v \in DOMAIN sg :
+                       EqA(s, [id |-> sg[v].id, m |-> [x \in DOMAIN sg[v].m |-> f[sg[v].m[x]]]], hu[t[vi(v)]])
+      unsound == {sg \in opm : grd(sg) /\ ~big(sg) /\ ~\E t \in mt : ids(sg, t) /\ \E f \in G(sg) : R(sg, f, t)}
+      void    == \E sg \in opm : ~grd(sg)
+      missed  == IF void THEN {} ELSE {t \in mt : ~bigT(t) /\ ~\E sg \in opm : ids(sg, t) /\ \E f \in G(sg) : R(sg, f, t)}
+  IN /\ IF repr THEN TRUE ELSE Say("an expected match names a term that is not represented", q)
+     /\ IF unsound = {} THEN TRUE ELSE Say("the operational e-matcher reports a match that is not in the declarative match set", <<q, SetToSeq(unsound)>>)
+     /\ IF missed = {} THEN TRUE ELSE Say("the operational e-matcher misses a member of the declarative match set", <<q, SetToSeq(missed)>>)
+
+MatchRefines ==
+  \* judged on the state as it is (lazy insertion: exactly the base terms and the sides of the asserted equations
+  \* are inserted - the set the declarative specification calls represented)
+  OpPatterns = << >> \/ OpEager \/ ~Exp.nored \/ \A q \in DOMAIN OpPatterns : MatchRefinesAt(st, q)
 
 (* old handles stay valid (C13 at design level): canonicalising them gives an invocation
    of a live class whose arguments are among the handle's own                               *)
